@@ -178,6 +178,17 @@ theorem indent_step_positive (n : Nat) :
   unfold domIndentWidth streamIndentWidth
   split <;> simp <;> omega
 
+/-- The statements above, for the revision the driver actually runs (`currentRev`, read from the
+working tree on every run): value and key quoting of the current source re-read. -/
+theorem current_source_reread (inFlow top : Bool) (s : List Char) (style : Style) :
+    loadScalar resolvePlainRs (valueCtx inFlow) (yamlQuoteStringWithStyle currentRev inFlow s style) =
+      some (.str s) ∧
+    loadKeyText (keyCtx inFlow top) (yamlQuoteKey currentRev inFlow s) = some s := by
+  rw [current_is_fixed]
+  exact ⟨scalar_reread inFlow s style, key_reread inFlow top s⟩
+
+example : yamlQuoteKey currentRev true "k,l".toList = "\"k,l\"".toList := by decide
+
 /-! ## Refutations on the source before the fix (`Rev.v0`): concrete witnesses -/
 
 /-- F9: leading space. `a:  x` reads `x`. -/
